@@ -16,6 +16,7 @@ import (
 	"bytes"
 	"errors"
 	"os"
+	"runtime"
 	"sort"
 	"strconv"
 	"strings"
@@ -83,11 +84,12 @@ type world struct {
 	logger *zap.Logger
 
 	// gate
-	turnBump atomic.Bool // true while the split-bump goroutine runs
-	ev       chan string // bump goroutine -> harness: "at:<call>" | "done:<tag>"
-	rel      chan error  // harness -> bump goroutine
-	at       string      // "" = no bump in flight, else the call it is parked at
-	failCall string      // main-goroutine fault injection: this call fails once
+	turnBump atomic.Bool  // true while the split-bump goroutine runs
+	bumpGID  atomic.Int64 // goroutine id of the split bump (0 = none)
+	ev       chan string  // bump goroutine -> harness: "at:<call>" | "done:<tag>"
+	rel      chan error   // harness -> bump goroutine
+	at       string       // "" = no bump in flight, else the call it is parked at
+	failCall string       // main-goroutine fault injection: this call fails once
 	failHit  bool
 
 	dbFault    string // "" | err | close : fault for the next slashing-record write at database level
@@ -127,8 +129,21 @@ func (d *faultDB) Using(rw basedb.ReadWriter) basedb.ReadWriter {
 	return rw
 }
 
+// goid: id of the calling goroutine (the gate must only stop the goroutine that runs the split bump, not a request
+// that was waiting for the wallet lock and starts running the moment the bump releases it)
+func goid() int64 {
+	var buf [64]byte
+	n := runtime.Stack(buf[:], false)
+	f := strings.Fields(string(buf[:n]))
+	if len(f) < 2 {
+		return -1
+	}
+	id, _ := strconv.ParseInt(f[1], 10, 64)
+	return id
+}
+
 func (w *world) hook(call string) error {
-	if w.turnBump.Load() {
+	if g := w.bumpGID.Load(); g != 0 && g == goid() {
 		w.ev <- "at:" + call
 		return <-w.rel
 	}
@@ -276,7 +291,7 @@ func (w *world) readback(sh *share) string {
 	default:
 		b.WriteString(hx.Sprintf(" prop=%d", uint64(p)))
 	}
-	if ekm.VerifHasAccount(w.km, sh.pk) {
+	if ekm.VerifHasAccountNoLock(w.km, sh.pk) { // no wallet lock: a paused bump may hold it
 		b.WriteString(" acc=1")
 	} else {
 		b.WriteString(" acc=0")
@@ -409,6 +424,135 @@ type H struct {
 	cur      string // the op line being executed
 	hangs    int
 	sigCount map[string]int
+
+	delayed    *delayedOp // a lock-taking request issued while a paused bump holds the wallet lock
+	delayedObs string     // its observation, once it has completed (reported by `resume`)
+	delayedK   int        // share of the delayed request (generator bookkeeping)
+	delayedSh  *share     // share of the delayed request
+}
+
+// delayedOp: the request runs in its own goroutine (it blocks on the wallet lock); done() is run on the harness
+// goroutine after the bump has finished and evaluates the oracle / builds the observation.
+type delayedOp struct {
+	ch   chan error
+	done func(err error) string
+}
+
+// collectDelayed waits for the delayed request once the bump has released the lock. A request that does not
+// come back is a HARNESS ERROR (the process exits non-zero), never a pass.
+func (h *H) collectDelayed() {
+	if h.delayed == nil {
+		return
+	}
+	select {
+	case err := <-h.delayed.ch:
+		h.delayedObs = h.delayed.done(err)
+	case <-time.After(30 * time.Second):
+		panic("harness error: a request delayed behind BumpSlashingProtection did not complete within 30s after the bump finished")
+	}
+	h.delayed = nil
+}
+
+// recordAtt / recordBlk: oracle for one RELEASED signature (pairwise against everything released before for the
+// share, and "released => the record read back dominates it")
+func (h *H) recordAtt(sh *share, s, t uint64) {
+	if _, hs1, ht1, _, _ := h.w.records(sh); hs1 < s || ht1 < t {
+		h.violate("C04/signature-released-without-persisted-mark", hx.Sprintf("attestation (%d,%d) was released but the stored highest attestation is (%d,%d)", s, t, hs1, ht1))
+	}
+	na := relAtt{s, t, len(h.cs.lines)}
+	for _, o := range sh.atts {
+		if k := slashKind(o, na); k != "" {
+			h.reportPair(sh.uncoveredAtt(o, na.line), k, hx.Sprintf("attestations (%d,%d) and (%d,%d) both signed for one share", o.s, o.t, s, t))
+		}
+	}
+	sh.atts = append(sh.atts, na)
+}
+
+func (h *H) recordBlk(sh *share, slot uint64) {
+	if _, _, _, _, hp1 := h.w.records(sh); hp1 < slot {
+		h.violate("C04/signature-released-without-persisted-mark", hx.Sprintf("block at slot %d was released but the stored highest proposal is %d", slot, hp1))
+	}
+	nb := relBlk{slot, len(h.cs.lines)}
+	for _, o := range sh.blocks {
+		if o.slot == slot {
+			h.reportPair(sh.uncoveredBlk(o, nb.line), "double-proposal", hx.Sprintf("two blocks signed for slot %d for one share", slot))
+		}
+	}
+	sh.blocks = append(sh.blocks, nb)
+}
+
+// issueDelayed: a lock-taking request while the paused bump holds the wallet lock for writing: the real request is
+// started in a goroutine (it blocks inside the key manager), the op is observed as `blocked`, and it is expected to
+// complete only after the bump has finished (collectDelayed). One waiting request at a time.
+func (h *H) issueDelayed(line string, ws []string, sh *share) {
+	w := h.w
+	if h.delayed != nil || h.delayedObs != "" {
+		h.emit(line, "badop "+w.readback(sh))
+		return
+	}
+	var call func() error
+	var done func(err error) string
+	switch ws[0] {
+	case "add":
+		call = func() error { return w.km.AddShare(sh.sk) }
+		done = func(err error) string { return opErrTag(err) }
+	case "remove":
+		call = func() error { return w.km.RemoveShare(hx.Hex(sh.pk)) }
+		done = func(err error) string { return opErrTag(err) }
+	case "bump":
+		call = func() error { return w.km.(ekm.StorageProvider).BumpSlashingProtection(sh.pk) }
+		done = func(err error) string { return opErrTag(err) }
+	case "satt":
+		s, _ := kvOf(ws, "s")
+		t, _ := kvOf(ws, "t")
+		h.salt++
+		att := mkAtt(h.clock(), s, t, h.salt)
+		call = func() error {
+			sig, _, err := w.km.SignBeaconObject(att, phase0.Domain{}, sh.pk, spectypes.DomainAttester)
+			if err == nil && len(sig) == 0 {
+				return errors.New("empty signature")
+			}
+			return err
+		}
+		done = func(err error) string {
+			if err != nil {
+				return "refused:" + refuseTag(err)
+			}
+			h.recordAtt(sh, s, t)
+			return "signed"
+		}
+	case "sblk":
+		slot, _ := kvOf(ws, "slot")
+		h.salt++
+		var obj ssz.HashRoot = mkBlock(slot, h.salt)
+		if kvStr(ws, "kind") == "blind" {
+			obj = mkBlinded(slot, h.salt)
+		}
+		call = func() error {
+			sig, _, err := w.km.SignBeaconObject(obj, phase0.Domain{}, sh.pk, spectypes.DomainProposer)
+			if err == nil && len(sig) == 0 {
+				return errors.New("empty signature")
+			}
+			return err
+		}
+		done = func(err error) string {
+			if err != nil {
+				return "refused:" + refuseTag(err)
+			}
+			h.recordBlk(sh, slot)
+			return "signed"
+		}
+	default: // fault-injecting variants and concurrent blocks are not issued behind a bump
+		h.emit(line, "badop "+w.readback(sh))
+		return
+	}
+	d := &delayedOp{ch: make(chan error, 1), done: done}
+	go func() { d.ch <- call() }()
+	h.delayed = d
+	h.delayedSh = sh
+	h.run.Seen("delayed:" + ws[0])
+	h.run.Tag("delayed-behind-bump")
+	h.emit(line, "blocked "+w.readback(sh))
 }
 
 // each hang costs a timeout and an abandoned signer; after this many the concurrent requests stop
@@ -482,6 +626,8 @@ func (h *H) doOp(line string) {
 	if ws[0] == "reset" {
 		// a new self-contained case: fresh share keys on the SAME database, clock set by the line
 		w.abortBump()
+		h.collectDelayed()
+		h.delayedObs = ""
 		n, _ := kvOf(ws, "shares")
 		c, _ := kvOf(ws, "clock")
 		h.cs = &caseState{kind: kvStr(ws, "kind"), bumpK: -1}
@@ -505,16 +651,33 @@ func (h *H) doOp(line string) {
 		sh = cs.shares[k]
 	}
 	switch ws[0] {
+	case "add", "addfail", "remove", "removefail", "bump", "satt", "sattf", "sblk", "sblkf", "conc", "xconc":
+		if w.at != "" && ekm.VerifWalletLocked(w.km) {
+			h.issueDelayed(line, ws, sh)
+			return
+		}
+	}
+	switch ws[0] {
+	case "resume":
+		if h.delayedObs == "" || h.delayedSh != sh {
+			h.emit(line, "badop "+w.readback(sh))
+			return
+		}
+		obs := h.delayedObs
+		h.delayedObs = ""
+		h.emit(line, obs+" "+w.readback(sh)) // outcome of the delayed request + the records as they are now
 	case "tick":
 		dt, _ := kvOf(ws, "dt")
 		w.net.slot.Add(dt)
 		h.emit(line, "ok")
 	case "restart":
+		inflight := w.at != ""
+		w.abortBump()      // the in-flight bump returns without further writes and releases the wallet lock
+		h.collectDelayed() // a request that was waiting for it runs now (before the process goes down)
 		before := make([]string, len(cs.shares))
 		for i, s := range cs.shares {
 			before[i] = w.readback(s)
 		}
-		inflight := w.at != ""
 		w.restart()
 		cs.bumpK = -1
 		for i, s := range cs.shares {
@@ -530,7 +693,7 @@ func (h *H) doOp(line string) {
 			w.failCall = map[bool]string{true: "saveAtt", false: "saveProp"}[n == 0]
 		}
 		w.failHit = false
-		had := ekm.VerifHasAccount(w.km, sh.pk)
+		had := ekm.VerifHasAccountNoLock(w.km, sh.pk)
 		err := w.km.AddShare(sh.sk)
 		w.failCall = ""
 		run.Seen(hx.Sprintf("%s:had=%v:%s:hit=%v", ws[0], had, opErrTag(err), w.failHit))
@@ -541,7 +704,7 @@ func (h *H) doOp(line string) {
 			w.failCall = map[bool]string{true: "rmAtt", false: "rmProp"}[n == 0]
 		}
 		w.failHit = false
-		had := ekm.VerifHasAccount(w.km, sh.pk)
+		had := ekm.VerifHasAccountNoLock(w.km, sh.pk)
 		err := w.km.RemoveShare(hx.Hex(sh.pk))
 		w.failCall = ""
 		run.Seen(hx.Sprintf("%s:had=%v:%s", ws[0], had, opErrTag(err)))
@@ -560,7 +723,9 @@ func (h *H) doOp(line string) {
 		cs.bumpAt0 = h.clock()
 		w.turnBump.Store(true)
 		go func(pk []byte) {
+			w.bumpGID.Store(goid())
 			err := w.km.(ekm.StorageProvider).BumpSlashingProtection(pk)
+			w.bumpGID.Store(0)
 			w.ev <- "done:" + opErrTag(err)
 		}(sh.pk)
 		h.emit(line, h.waitBump()+" "+w.readback(sh))
@@ -582,6 +747,9 @@ func (h *H) doOp(line string) {
 			cs.bumpK = -1
 		}
 		_, hs1, ht1, _, hp1 := w.records(sh)
+		if res != "pending" {
+			h.collectDelayed() // the bump has released the wallet lock: the waiting request executes now
+		}
 		stale := h.clock() != cs.bumpAt0
 		if at == "saveAtt" && hasA && (hs1 < hs0 || ht1 < ht0) || at == "saveProp" && hasP && hp1 < hp0 {
 			run.Tag("bump-write-lowered-record")
@@ -629,17 +797,7 @@ func (h *H) doOp(line string) {
 			if !hasA {
 				h.violate("C04/signed-with-missing-attestation-record", hx.Sprintf("attestation (%d,%d) signed while no highest-attestation record existed", s, t))
 			}
-			// a released signature must stand on a persisted record (read back, after the reopen where there was one)
-			if _, hs1, ht1, _, _ := w.records(sh); hs1 < s || ht1 < t {
-				h.violate("C04/signature-released-without-persisted-mark", hx.Sprintf("attestation (%d,%d) was released but the stored highest attestation is (%d,%d)", s, t, hs1, ht1))
-			}
-			na := relAtt{s, t, len(cs.lines)}
-			for _, o := range sh.atts {
-				if k := slashKind(o, na); k != "" {
-					h.reportPair(sh.uncoveredAtt(o, na.line), k, hx.Sprintf("attestations (%d,%d) and (%d,%d) both signed for one share", o.s, o.t, s, t))
-				}
-			}
-			sh.atts = append(sh.atts, na)
+			h.recordAtt(sh, s, t)
 		}
 		cls := "none"
 		if hasA {
@@ -690,16 +848,7 @@ func (h *H) doOp(line string) {
 			if !hasP {
 				h.violate("C04/signed-with-missing-proposal-record", hx.Sprintf("block at slot %d signed while no highest-proposal record existed", slot))
 			}
-			if _, _, _, _, hp1 := w.records(sh); hp1 < slot {
-				h.violate("C04/signature-released-without-persisted-mark", hx.Sprintf("block at slot %d was released but the stored highest proposal is %d", slot, hp1))
-			}
-			nb := relBlk{slot, len(cs.lines)}
-			for _, o := range sh.blocks {
-				if o.slot == slot {
-					h.reportPair(sh.uncoveredBlk(o, nb.line), "double-proposal", hx.Sprintf("two blocks signed for slot %d for one share", slot))
-				}
-			}
-			sh.blocks = append(sh.blocks, nb)
+			h.recordBlk(sh, slot)
 		}
 		cls := "none"
 		if hasP {
@@ -1030,21 +1179,64 @@ func (h *H) genCase(idx int) {
 		e, c := h.epoch(), h.clock()
 		x := r.Intn(100)
 		inflight := h.w.at != ""
-		if !ekm.VerifHasAccount(h.w.km, sh.pk) && r.Chance(30) {
+		if !ekm.VerifHasAccountNoLock(h.w.km, sh.pk) && r.Chance(30) {
 			x = 0 // re-register a removed / never added share
 		}
-		switch {
-		case inflight && x < 45:
-			// advance the in-flight split bump
+		if h.delayedObs != "" { // the request that waited behind the bump has completed: collect its outcome
+			h.doOp(hx.Sprintf("resume k=%d", h.delayedK))
+			continue
+		}
+		if inflight {
+			// a bump is in flight (it holds the wallet lock): advance it, advance the clock, restart, or issue ONE
+			// lock-taking request that has to wait for it
 			bk := h.cs.bumpK
-			op := "bread"
-			if h.w.at == "saveAtt" || h.w.at == "saveProp" {
-				op = "bwrite"
+			switch y := r.Intn(100); {
+			case y < 50:
+				op := "bread"
+				if h.w.at == "saveAtt" || h.w.at == "saveProp" {
+					op = "bwrite"
+				}
+				if r.Chance(4) { // wrong step: not applicable
+					op = map[string]string{"bread": "bwrite", "bwrite": "bread"}[op]
+				}
+				h.doOp(hx.Sprintf("%s k=%d", op, bk))
+			case y < 72:
+				h.doOp(hx.Sprintf("tick dt=%d", r.Pick(1, 1, 2, 31, 32, 32, 33, 64)))
+			case y < 75:
+				h.doOp("restart")
+			case y < 78:
+				h.doOp(hx.Sprintf("bbegin k=%d", k)) // not applicable: one already in flight
+			default:
+				if h.delayed != nil && !r.Chance(10) {
+					continue
+				}
+				if h.delayed == nil {
+					h.delayedK = k
+				}
+				switch z := r.Intn(10); {
+				case z < 4:
+					s, t := h.genAtt(hasA, hs, ht, e, h.cs.kind == "malformed")
+					if h.cs.kind != "malformed" && !(s < t && t <= e) {
+						continue
+					}
+					h.doOp(hx.Sprintf("satt k=%d s=%d t=%d", k, s, t))
+				case z < 7:
+					slot := c
+					if hasP && r.Chance(40) {
+						slot = hp
+					}
+					h.doOp(hx.Sprintf("sblk k=%d slot=%d kind=%s", k, slot, map[bool]string{true: "blind", false: "full"}[r.Chance(35)]))
+				case z < 8:
+					h.doOp(hx.Sprintf("add k=%d", k))
+				case z < 9:
+					h.doOp(hx.Sprintf("remove k=%d", k))
+				default:
+					h.doOp(hx.Sprintf("bump k=%d", k))
+				}
 			}
-			if r.Chance(4) { // wrong step: not applicable
-				op = map[string]string{"bread": "bwrite", "bwrite": "bread"}[op]
-			}
-			h.doOp(hx.Sprintf("%s k=%d", op, bk))
+			continue
+		}
+		switch {
 		case x < 8:
 			h.doOp(hx.Sprintf("add k=%d", k))
 		case x < 12:
@@ -1061,12 +1253,9 @@ func (h *H) genCase(idx int) {
 			} else {
 				h.doOp(hx.Sprintf("bump k=%d", k))
 			}
-		case x < 30:
+		case x < 29:
 			h.doOp("restart")
 		case x < 44:
-			if inflight && h.cs.kind != "race" {
-				continue // no clock advance while a bump is in flight, except in race cases
-			}
 			h.doOp(hx.Sprintf("tick dt=%d", r.Pick(1, 1, 2, 5, 31, 32, 32, 32, 33, 64, 100)))
 		case x < 78:
 			if concOK && hasA && r.Chance(20) && !inflight && h.hangs < maxHangs {
@@ -1086,8 +1275,8 @@ func (h *H) genCase(idx int) {
 			if h.cs.kind != "malformed" && !(s < t && t <= e) {
 				continue
 			}
-			if r.Chance(7) {
-				h.doOp(hx.Sprintf("sattf k=%d s=%d t=%d mode=%s", k, s, t, map[bool]string{true: "close", false: "err"}[r.Chance(45)]))
+			if r.Chance(5) {
+				h.doOp(hx.Sprintf("sattf k=%d s=%d t=%d mode=%s", k, s, t, map[bool]string{true: "close", false: "err"}[r.Chance(35)]))
 				continue
 			}
 			h.doOp(hx.Sprintf("satt k=%d s=%d t=%d", k, s, t))
@@ -1119,8 +1308,8 @@ func (h *H) genCase(idx int) {
 				slot = c
 			}
 			bk := map[bool]string{true: "blind", false: "full"}[r.Chance(35)]
-			if r.Chance(7) {
-				h.doOp(hx.Sprintf("sblkf k=%d slot=%d kind=%s mode=%s", k, slot, bk, map[bool]string{true: "close", false: "err"}[r.Chance(45)]))
+			if r.Chance(5) {
+				h.doOp(hx.Sprintf("sblkf k=%d slot=%d kind=%s mode=%s", k, slot, bk, map[bool]string{true: "close", false: "err"}[r.Chance(35)]))
 				continue
 			}
 			h.doOp(hx.Sprintf("sblk k=%d slot=%d kind=%s", k, slot, bk))
@@ -1137,8 +1326,9 @@ func (h *H) genCase(idx int) {
 }
 
 // racePrologue scripts the interleaving the random walk rarely finds: a split BumpSlashingProtection reads the
-// clock and an outdated record, the clock advances, a request is signed, the bump writes, a second request for
-// the same target / slot arrives. All values are drawn; the ops go through doOp like any other.
+// clock and an outdated record, the clock advances, a sign request arrives (it has to wait for the bump), the bump
+// writes its by now stale minimal record and finishes, the request is signed, conflicting requests for the same
+// target / slot follow. All values are drawn; the ops go through doOp like any other.
 func (h *H) racePrologue(k int) {
 	r := h.rng
 	h.doOp(hx.Sprintf("add k=%d", k))
@@ -1147,27 +1337,28 @@ func (h *H) racePrologue(k int) {
 	h.doOp(hx.Sprintf("bread k=%d", k))
 	h.doOp(hx.Sprintf("tick dt=%d", int(h.spe)*(1+r.Intn(2))))
 	e := h.epoch()
-	if e >= 2 {
-		h.doOp(hx.Sprintf("satt k=%d s=%d t=%d", k, e-1, e))
-		if h.w.at == "saveAtt" {
-			h.doOp(hx.Sprintf("bwrite k=%d", k))
-		}
-		if r.Chance(50) {
-			h.doOp(hx.Sprintf("satt k=%d s=%d t=%d", k, e-2, e))
-		} else {
-			h.doOp(hx.Sprintf("tick dt=%d", int(h.spe)))
-			h.doOp(hx.Sprintf("satt k=%d s=%d t=%d", k, e-2, e+1))
-		}
-	}
-	if h.w.at == "retrProp" {
-		h.doOp(hx.Sprintf("bread k=%d", k))
-		c := h.clock()
+	c := h.clock()
+	if r.Chance(50) {
+		h.doOp(hx.Sprintf("satt k=%d s=%d t=%d", k, e-1, e)) // waits for the bump (before the fix: signed at once)
+	} else {
 		h.doOp(hx.Sprintf("sblk k=%d slot=%d kind=full", k, c))
-		if h.w.at == "saveProp" {
-			h.doOp(hx.Sprintf("bwrite k=%d", k))
-		}
-		h.doOp(hx.Sprintf("sblk k=%d slot=%d kind=blind", k, c))
 	}
+	for i := 0; i < 6 && h.w.at != ""; i++ { // let the bump finish: write att, read prop, write prop
+		op := "bread"
+		if h.w.at == "saveAtt" || h.w.at == "saveProp" {
+			op = "bwrite"
+		}
+		h.doOp(hx.Sprintf("%s k=%d", op, k))
+	}
+	if h.delayedObs != "" {
+		h.doOp(hx.Sprintf("resume k=%d", k))
+	}
+	// conflicting requests: all must be refused now
+	if e >= 2 {
+		h.doOp(hx.Sprintf("satt k=%d s=%d t=%d", k, e-2, e))
+		h.doOp(hx.Sprintf("satt k=%d s=%d t=%d", k, e-1, e))
+	}
+	h.doOp(hx.Sprintf("sblk k=%d slot=%d kind=blind", k, c))
 }
 
 // genAtt draws (source, target) at, just below and (malformed) above the clock / the stored record.
